@@ -262,6 +262,34 @@ theorem addressed_end (d : Dialect) (r : Req) (h : r.newName ≠ some "")
     (alterColumn d r).stmts.foldl nextName r.column = r.newName.getD r.column :=
   (alterColumn_addr d r h).2 hok
 
+/-- the MSSQL drop-default batch: the string the `col_name(...)` literal denotes must be the bare
+column name — a literal holding the *quoted* identifier (`'[Balance]'`) looks up nothing, so the
+batch does not address the column (`addressOk` rejects it) and the default is not dropped
+(`exactOk` rejects it); the model's batch is accepted -/
+def dropDefaultReq : Req :=
+  { table := "account", column := "Balance", schema := none,
+    type_ := none, nullable := none, serverDefault := .drop, newName := none, comment := .unset,
+    autoinc := none, exType := none, exNullable := none, exDefault := .unset, exComment := none,
+    exAutoinc := none, usingE := none }
+
+def dropDefaultInit : ColState :=
+  { name := "Balance", ty := "INTEGER", nullable := true, default := some (.plain "0"), comment := none, autoinc := false }
+
+example : (alterColumn .mssql dropDefaultReq).stmts =
+    [.mssqlDropDefault ⟨none, "account"⟩ ⟨none, "account"⟩ "Balance"] := by decide
+
+example : addressOk "Balance" [.mssqlDropDefault ⟨none, "account"⟩ ⟨none, "account"⟩ "[Balance]"] = false ∧
+    exactOk .mssql dropDefaultReq dropDefaultInit
+      ⟨[.mssqlDropDefault ⟨none, "account"⟩ ⟨none, "account"⟩ "[Balance]"], none⟩ = false ∧
+    exactOk .mssql dropDefaultReq dropDefaultInit
+      ⟨[.mssqlDropDefault ⟨none, "account"⟩ ⟨none, "account"⟩ "Balance"], none⟩ = true := by decide
+
+/-- ... and a batch whose `object_id('...')` literal names another table drops nothing either -/
+example : exactOk .mssql dropDefaultReq dropDefaultInit
+      ⟨[.mssqlDropDefault ⟨none, "account"⟩ ⟨some "dbo", "accounts"⟩ "Balance"], none⟩ = false ∧
+    schemaOk dropDefaultReq ⟨[.mssqlDropDefault ⟨none, "account"⟩ ⟨some "dbo", "accounts"⟩ "Balance"], none⟩ = false := by
+  decide
+
 /-- rename + constraint-bearing new type: the constraint names the new column -/
 def addressWitness : Req :=
   { table := "t1", column := "c1", schema := none,
